@@ -73,8 +73,16 @@ fn peephole2_helper(lines: &[Line], index: usize, ret: &mut Vec<Line>) -> bool {
             func_id,
         } => {
             if index + 1 < lines.len()
-                && let Line::Instr { instr: instr2, .. } = &lines[index + 1]
+                && let Line::Instr {
+                    instr: instr2,
+                    lineno: lineno2,
+                    file_id: file_id2,
+                    func_id: func_id2,
+                } = &lines[index + 1]
             {
+                // when an operand load/push is fused into the operation that follows it, the
+                // fused instruction is the operation: it keeps the operation's source location
+                let (lineno2, file_id2, func_id2) = (*lineno2, *file_id2, *func_id2);
                 match (instr1, instr2) {
                     // PUSH POP
                     (Instr::PushNil(n), Instr::Pop) => {
@@ -142,9 +150,9 @@ fn peephole2_helper(lines: &[Line], index: usize, ret: &mut Vec<Line>) -> bool {
                     (Instr::LoadOffset(offset), instr2) if instr2.second_arg_is_top() => {
                         ret.push(Line::Instr {
                             instr: instr2.clone().replace_second_arg(Reg::Offset(offset)),
-                            lineno,
-                            file_id,
-                            func_id,
+                            lineno: lineno2,
+                            file_id: file_id2,
+                            func_id: func_id2,
                         });
                         true
                     }
@@ -154,9 +162,9 @@ fn peephole2_helper(lines: &[Line], index: usize, ret: &mut Vec<Line>) -> bool {
                     {
                         ret.push(Line::Instr {
                             instr: instr2.clone().replace_first_arg(Reg::Offset(offset)),
-                            lineno,
-                            file_id,
-                            func_id,
+                            lineno: lineno2,
+                            file_id: file_id2,
+                            func_id: func_id2,
                         });
                         true
                     }
@@ -180,9 +188,9 @@ fn peephole2_helper(lines: &[Line], index: usize, ret: &mut Vec<Line>) -> bool {
                             instr: instr2
                                 .clone()
                                 .replace_second_arg_imm_int(instr1.get_imm_int()),
-                            lineno,
-                            file_id,
-                            func_id,
+                            lineno: lineno2,
+                            file_id: file_id2,
+                            func_id: func_id2,
                         });
                         true
                     }
@@ -196,9 +204,9 @@ fn peephole2_helper(lines: &[Line], index: usize, ret: &mut Vec<Line>) -> bool {
                             instr: instr2
                                 .clone()
                                 .replace_second_arg_imm_float(instr1.get_imm_float()),
-                            lineno,
-                            file_id,
-                            func_id,
+                            lineno: lineno2,
+                            file_id: file_id2,
+                            func_id: func_id2,
                         });
                         true
                     }
